@@ -174,3 +174,6 @@ func DigestOf(s string) []byte { d := sha256.Sum256([]byte(s)); return d[:] }
 
 // HasSuffix is strings.HasSuffix (usable in specifications without forking).
 func HasSuffix(s, p string) bool { return strings.HasSuffix(s, p) }
+
+// Decimal is the decimal text of n.
+func Decimal(n int64) string { return fmt.Sprint(n) }
